@@ -452,6 +452,19 @@ def r4_local_atomic(ctx):
                         f'{fi.qual}: temporary is created in the destination\'s own directory (same file system, atomic replace possible)',
                         f'{fi.qual}: temporary directory {show(d, limit=80) if d else "<default tmp dir>"} is not `destination.parent` of the replace target - replace may cross file systems / is not atomic',
                     )
+            # (ii-b) every call publishes: no normal way out of the method that does not pass the replace (an "already there,
+            # nothing to do" shortcut is wrong for every object whose name is not derived from its content, e.g. `config`)
+            rnodes = [x for rown, _s, _d in replaces for x in cfg.nodes_of(enclosing_stmt(rown), ('stmt', 'ok'))]
+            skip = cfg.path(cfg.entry, [cfg.exit], avoid=rnodes, kinds=('normal',)) if rnodes else None
+            ctx.check(
+                skip is None,
+                'C03.R4',
+                f'{key0}|every-call-publishes',
+                site,
+                f'{fi.qual}: every successful call replaces the destination with the given data',
+                f'{fi.qual}: a call can return successfully without having stored the data (path {" -> ".join(f"{n.kind}@{n.lineno}" for n in (skip or []) if n.lineno)[:120]}): '
+                'an existing object of the same name keeps its old content - fatal for names that are not content-derived (the repository config), and for objects damaged earlier',
+            )
             # (iii) writes complete (file closed) before replace
             for rown, _s, _d in replaces:
                 rst = enclosing_stmt(rown)
